@@ -6,7 +6,7 @@ EXTENDS Aggregator, AggAlphabet
 Cmds == <<
   C("function", <<"@">>),
   C("function", <<"dup", "a">>), C("function", <<"dup", "b", "_p_a">>),     \* the same name defined twice, differently
-  C("function", <<"_p_@", "_p_a", "b">>),
+  C("function", <<"_p_@", "_p_a", "a_s", "_p_", "b">>),     \* prefix, suffix, and a parameter the pattern matches entirely
   \* a quoted parameter with two blanks (shown as written; the pattern does not apply to it), a parameter that begins
   \* with '_' but has no second one (no strip pattern of the harness matches it), a bracket parameter
   C("function", <<"@", "\"_p_q  two\"", "_r", "_p_a", "[[x   y]]">>),
